@@ -12,11 +12,11 @@ import (
 
 func init() {
 	register(&propInfo{
-		ID: "C01",
+		ID:          "C01",
 		Explanation: "Symbolic comparison of index expressions (linear forms over loop indexes and descriptor fields, resolved through locals, helpers and the stores that fill the descriptor fields) at the places where argument and result positions are decided: (R01.1) on the server the slot of the reflective call's argument list into which parameter i is stored equals the index of the declared input whose type was used to decode it (the receiver-type table is filled with In(e1) at index e2; the value decoded with entry j is stored at slot e1[e2:=j]); (R01.2) the argument list is made with as many slots as the method has inputs, and the context is placed in exactly the input position that was tested for being a context (server: behind the receiver; client: first argument); (R01.3) on the client the i-th wire parameter is the argument at position i + (number of leading context arguments), for the same i, and the parameter list has len(args) minus that number of entries. These are the structural halves of 'calling the client function runs the handler with those arguments': a position mismatch makes reflect.Call panic or hands an argument to the wrong parameter for signatures the suite does not exercise (context plus several parameters, three or more parameters).",
-		NotDecided: "Everything about values: JSON round trips (nil vs empty, 64-bit extremes, escaping), custom encoders/decoders, result positions computed by processFuncOut, equality of outcomes across transports and name formatters. Shapes that do not use index arithmetic (an argument list built by append) are reported as not compared, not as violations.",
+		NotDecided:  "Everything about values: JSON round trips (nil vs empty, 64-bit extremes, escaping), custom encoders/decoders, result positions computed by processFuncOut, equality of outcomes across transports and name formatters. Shapes that do not use index arithmetic (an argument list built by append) are reported as not compared, not as violations.",
 		Assumptions: []string{"reflect.Call requires argument k to be assignable to input k of the function", "descriptor fields are written only by the visible stores (closed struct types)"},
-		Run: runC01,
+		Run:         runC01,
 	})
 }
 
@@ -557,7 +557,7 @@ func runC01(c *Ctx) {
 				// the tail starts behind the leading context arguments; the list has len(args) - that many entries
 				if mk, ok := stripSliceOrigin(ia.X).(*ssa.MakeSlice); ok && lo != nil {
 					L := env.lin(mk.Len, 0)
-					want := env.atom("len:" + c.originKey(base)).add(env.lin(lo, 0), -1)
+					want := env.atom("len:"+c.originKey(base)).add(env.lin(lo, 0), -1)
 					c.check(L.equal(want), "R01.3", construct+" (count)", c.ipos(mk), "len(args) minus the leading context arguments",
 						fmt.Sprintf("the parameter list has [%s] entries but the argument tail has [%s]: a parameter is dropped or a null is appended", L, want))
 				}
